@@ -197,7 +197,7 @@ def encode_frame(fd, rnd, ctx=None):
 # ------------------------------------------------------------------ connection
 DEFAULT_QUIC_SPEC = dict(
     kind="quic", seed=1, suite=0x1301, offered=None, dcid_len=8, c_scid_len=8, s_scid_len=8,
-    retry=False, token_len=0, early=0, early_suite=None, split_ch=0, ch_shuffle=False, split_shs=0, cert_len=600,
+    retry=False, token_len=0, hs_gaps=None, early=0, early_suite=None, split_ch=0, ch_shuffle=False, split_shs=0, cert_len=600,
     hs_coalesce=True,         # server Initial+Handshake (and client Initial+Handshake) in one datagram
     steps=[],                 # application-phase history, see QuicConn._step
 )
@@ -249,6 +249,7 @@ class QuicConn:
         self.largest = {}          # (space, dir) -> largest pn an observer of the capture has seen
         self.next_pn = {}
         self.gen = {False: 0, True: 0}
+        self._hs_count = 0
         self.sent_gen = {False: set(), True: set()}     # key generations in which each side has sent a 1-RTT packet
         self.dcid_for = {False: self.odcid, True: self.c_scid}   # DCID used by sender dir
         self.issued = {False: [], True: []}                        # CIDs issued BY dir (for use by the peer)
@@ -301,6 +302,14 @@ class QuicConn:
         space = {"initial": "i", "handshake": "h", "early": "a", "app": "a"}[kind]
         if pn_len is None and kind != "app":
             pn_len = self.spec.get("hs_pnl") or None       # encoded packet-number length of long-header packets (1..4)
+        if pn is None and kind != "app" and self.spec.get("hs_gaps"):
+            # senders may skip packet numbers (RFC 9000 21.4): gaps before handshake-phase packets, also across a Retry
+            g = self.spec["hs_gaps"]
+            gap = g[self._hs_count % len(g)]
+            self._hs_count += 1
+            if gap:
+                pn = self.next_pn.get((space, srv), 0) + gap
+                self.features.add("hs_pn_gap")
         pn, pn_len = self._pn(space, srv, pn, pn_len)
         if len(frames) + pn_len < 4:       # header-protection sample needs 4 bytes of pn+payload before it
             frames = b"\x00" * (4 - pn_len - len(frames)) + frames   # PADDING in front: a LEN-less STREAM frame runs to the end
